@@ -45,9 +45,9 @@ func smallAlphabet() *tracerAlphabet {
 		offsets:  []*uint256.Int{nil, uint256.NewInt(0), uint256.NewInt(1), uint256.NewInt(31), uint256.NewInt(32), big64},
 		types:    []common.Hash{common.BytesToHash([]byte{1}), common.BytesToHash([]byte{2}), common.BytesToHash([]byte{3}), {}}, // incl. the zero type id
 		// names and index keys whose concatenations coincide: "a"+"b" = "ab", ""+{1} = {1}, "a"+"" = "a"
-		names:    [][]byte{[]byte("a"), []byte("b"), []byte("cc"), {}, []byte("ab"), {1}},
-		idxKeys:  [][]byte{{1}, {2}, common.LeftPadBytes([]byte{7}, 32), {0, 1}, []byte("b"), {}},
-		vals:     [][]byte{{}, {0}, {1}, {1, 2, 3}, {0xff}, common.LeftPadBytes([]byte{9}, 32)},
+		names:   [][]byte{[]byte("a"), []byte("b"), []byte("cc"), {}, []byte("ab"), {1}},
+		idxKeys: [][]byte{{1}, {2}, common.LeftPadBytes([]byte{7}, 32), {0, 1}, []byte("b"), {}},
+		vals:    [][]byte{{}, {0}, {1}, {1, 2, 3}, {0xff}, common.LeftPadBytes([]byte{9}, 32)},
 	}
 }
 
